@@ -1,6 +1,6 @@
 (* ServeProof.v — proofs about Model/Serve.v for C10 / C14 / C17.
    Everything is proved for an arbitrary framer satisfying framer_ok, configuration and environment. *)
-From FH Require Import Model.Base Gen.GenC10 Model.ConnOpt Model.Serve Spec.ServeSpec.
+From FH Require Import Model.Base Gen.GenC10 Model.ConnOpt Model.Serve Spec.ServeSpec Proof.ConnOptProof.
 From Coq Require Import Lia.
 Open Scope nat_scope.
 
@@ -619,6 +619,104 @@ Proof.
   - congruence.
 Qed.
 
+(* ---------- C10: persistence matches the Connection header ---------- *)
+(* the handler's Set("Connection", v) values carry a close option only when they are exactly "close" *)
+Definition handler_guard : Prop := forall num q, ops_guard (handler E num q).
+
+Lemma req_hstate_clean num q cont st0 : handler_guard -> conn_clean (h_rh (req_hstate E num q cont st0)).
+Proof.
+  intros Hg. unfold req_hstate. destruct cont; [apply run_handler_clean, Hg|apply conn_clean_init].
+Qed.
+
+Lemma resp_close_true num q cont h : has_close (r_conn (resp_of num q cont h true)) = true.
+Proof. apply written_set_close. Qed.
+
+Lemma resp_close_false num q cont cc0 st0 :
+  handler_guard ->
+  close_decision cfg E num q cc0 (req_hstate E num q cont st0) = false ->
+  has_close (r_conn (resp_of num q cont (req_hstate E num q cont st0) false)) = false.
+Proof.
+  intros Hg Hcc. cbn [resp_of r_conn]. unfold final_rhdr.
+  assert (Hcl : rh_close (h_rh (req_hstate E num q cont st0)) = false).
+  { unfold close_decision in Hcc. repeat (apply orb_false_iff in Hcc as [Hcc ?]). assumption. }
+  destruct (negb (q_http11 q)).
+  - apply written_no_close; [apply conn_clean_keepalive|exact Hcl].
+  - apply written_no_close; [apply req_hstate_clean, Hg|exact Hcl].
+Qed.
+
+Definition nofinal (l : list event) : bool :=
+  forallb (fun e => match e with Resp r => is_interim r | _ => true end) l.
+
+Lemma conn_ok_skip a x : nofinal a = true -> conn_ok (a ++ x) = conn_ok x.
+Proof.
+  induction a as [|e a IH]; cbn; [reflexivity|]. intros H. apply andb_true_iff in H as [H1 H2].
+  destruct e; auto. rewrite H1. cbn. auto.
+Qed.
+
+Lemma fr_conn_ok num q cont cc0 st0 br fbr b cs t off dirty post :
+  handler_guard ->
+  (snd (FR num q cont cc0 st0 br fbr b cs t off dirty) = Exit -> forallb closing_ev post = true) ->
+  conn_ok post = true ->
+  conn_ok (fst (FR num q cont cc0 st0 br fbr b cs t off dirty) ++ post) = true.
+Proof.
+  intros Hg.
+  pose proof (resp_close_true num q cont (req_hstate E num q cont st0)) as Hct.
+  pose proof (resp_close_false num q cont cc0 st0 Hg) as Hcf.
+  fr_split num q cont cc0 st0 br b dirty; cbn [fst snd app conn_ok negb andb orb]; intros Hp Hc;
+    try specialize (Hp eq_refl); try specialize (Hcf eq_refl);
+    rewrite ?Hct, ?Hcf; cbn [forallb closing_ev stays_open skip_flush andb]; rewrite ?Hp, ?Hc, ?orb_true_r; reflexivity.
+Qed.
+
+Lemma fr_reasons_ok num q cont cc0 st0 br fbr b cs t off dirty post :
+  (cont = true -> st0 = StatusOK /\ cc0 = false) ->
+  (snd (FR num q cont cc0 st0 br fbr b cs t off dirty) = Exit -> forallb closing_ev post = true) ->
+  reasons_ok cfg E post = true ->
+  reasons_ok cfg E (fst (FR num q cont cc0 st0 br fbr b cs t off dirty) ++ post) = true.
+Proof.
+  intros Hst0.
+  pose proof (resp_close_true num q cont (req_hstate E num q cont st0)) as Hct.
+  assert (Hrs : cont = true ->
+            (close_reason cfg E num q = true -> close_decision cfg E num q cc0 (req_hstate E num q cont st0) = true) /\
+            response_suppressed E num q = h_noresp (req_hstate E num q cont st0) && h_hijack (req_hstate E num q cont st0)).
+  { intros Hc. destruct (Hst0 Hc) as [-> ->]. subst cont. split; [|reflexivity].
+    unfold close_reason, close_decision, handler_state. intros H.
+    repeat (apply orb_true_iff in H as [H|H]); rewrite H, ?orb_true_r; reflexivity. }
+  fr_split num q cont cc0 st0 br b dirty; cbn [fst snd app reasons_ok negb andb orb]; intros Hp Hc;
+    try specialize (Hp eq_refl);
+    try (destruct (Hrs eq_refl) as [Hrs1 ->]; rewrite ?Hnr, ?Hhj; cbn [andb negb];
+         try (destruct (close_reason cfg E num q); [specialize (Hrs1 eq_refl); try discriminate|]; cbn [andb]));
+    rewrite ?Hct; cbn [forallb closing_ev andb reasons_ok]; rewrite ?Hp, ?Hc, ?andb_false_r; reflexivity.
+Qed.
+
+Lemma fr_http10_ok num q cont cc0 st0 br fbr b cs t off dirty post :
+  http10_ok post = true ->
+  http10_ok (fst (FR num q cont cc0 st0 br fbr b cs t off dirty) ++ post) = true.
+Proof.
+  assert (Hk : forall cc, keepalive_marked (q_http11 q) (resp_of num q cont (req_hstate E num q cont st0) cc) = true).
+  { intros cc. unfold keepalive_marked. cbn [resp_of r_conn]. unfold final_rhdr. destruct cc.
+    - rewrite written_set_close. rewrite orb_true_r. reflexivity.
+    - destruct (q_http11 q); [reflexivity|]. cbn [negb orb].
+      unfold rhdr_written, rhdr_set_nonspecial. cbn [rh_conn rh_close]. rewrite has_option_app.
+      apply orb_true_iff; right. apply orb_true_iff; left. exact has_keepalive_keepalive. }
+  fr_split num q cont cc0 st0 br b dirty; cbn [fst snd app http10_ok negb andb orb]; intros Hc; rewrite ?Hk, ?Hc; reflexivity.
+Qed.
+
+Definition nodisp (l : list event) : bool :=
+  forallb (fun e => match e with Dispatch _ _ => false | _ => true end) l.
+
+Lemma reasons_ok_skip a x : nodisp a = true -> reasons_ok cfg E (a ++ x) = reasons_ok cfg E x.
+Proof.
+  induction a as [|e a IH]; cbn; [reflexivity|]. intros H. apply andb_true_iff in H as [H1 H2].
+  destruct e; auto. discriminate.
+Qed.
+
+Lemma http10_ok_skip a x : nodisp a = true -> http10_ok (a ++ x) = http10_ok x.
+Proof.
+  induction a as [|e a IH]; cbn; [reflexivity|]. intros H. apply andb_true_iff in H as [H1 H2].
+  destruct e; auto. discriminate.
+Qed.
+
+
 (* ---------- C14 at the level of serve_conn ---------- *)
 Lemma lst_init_inv rd : linv (lst_init rd) /\ sinv (remaining rd) (lst_init rd) /\
                         remaining (l_rd (lst_init rd)) = remaining rd.
@@ -661,6 +759,126 @@ Proof.
     destruct (keep_hijacked cfg); reflexivity.
   - destruct en; reflexivity.
   - destruct en; reflexivity.
+Qed.
+
+(* a trace predicate that (1) ignores the prelude of an iteration, (2) accepts an error response followed by
+   closing events, (3) is preserved by the end of the loop body *)
+Section TracePred.
+Variable P : list event -> bool.
+Hypothesis P_prelude : forall a x,
+  forallb (fun e => match e with Dispatch _ _ => false | Resp r => is_interim r | _ => true end) a = true ->
+  P (a ++ x) = P x.
+Hypothesis P_err : forall r post, r_conn r = [strClose] -> forallb closing_ev post = true -> P post = true ->
+  P (Resp r :: Flush :: post) = true.
+Hypothesis P_fr : forall num q cont cc0 st0 br fbr b cs t off dirty post,
+  (cont = true -> st0 = StatusOK /\ cc0 = false) ->
+  (snd (FR num q cont cc0 st0 br fbr b cs t off dirty) = Exit -> forallb closing_ev post = true) ->
+  P post = true -> P (fst (FR num q cont cc0 st0 br fbr b cs t off dirty) ++ post) = true.
+
+Lemma iter_pred s evs r post :
+  linv s -> serve_iter F cfg E s = (evs, r) ->
+  (r = Exit -> forallb closing_ev post = true) -> P post = true -> P (evs ++ post) = true.
+Proof.
+  intros Hinv Hrun Hp Hc. apply iter_decomp in Hrun; [|exact Hinv].
+  destruct Hrun as [[-> ->]|[[-> ->]|Hrun]].
+  - destruct (l_dirty s); [|exact Hc]. rewrite (P_prelude [Drop]); auto.
+  - cbn. apply P_err; auto.
+  - destruct Hrun as (avail & fl & mid & tailev & -> & Hav & Hfl & Hmid & fbr0 & Hfbr0 & Ht).
+    change (St StActive :: ParseAt (l_off s) avail :: fl ++ mid ++ tailev)
+      with ((St StActive :: ParseAt (l_off s) avail :: fl) ++ mid ++ tailev).
+    rewrite <- !app_assoc. rewrite P_prelude by (destruct Hfl as [->|[-> _]]; reflexivity).
+    rewrite P_prelude by (destruct Hmid as [->| ->]; reflexivity).
+    destruct Ht as [(-> & _ & ->)|[(-> & e & ->)|Ht]].
+    + destruct (unflushed_from (l_dirty s) fl); [|exact Hc]. rewrite (P_prelude [Drop]); auto.
+    + cbn. apply P_err; auto.
+    + destruct Ht as (q & cont & cc0 & st0 & br & fbr & b & cs & off & -> & -> & _ & _ & Hst0 & _).
+      apply P_fr; auto.
+Qed.
+
+Hypothesis P_nil_like : forall l, forallb (fun e => match e with Dispatch _ _ | Resp _ => false | _ => true end) l = true -> P l = true.
+
+Lemma loop_pred fuel s :
+  linv s -> P (fst (serve_loop F cfg E fuel s) ++ after_loop cfg (snd (serve_loop F cfg E fuel s))) = true.
+Proof.
+  revert s. induction fuel as [|f IH]; intros s Hinv; cbn; [apply P_nil_like; reflexivity|].
+  destruct (serve_iter F cfg E s) as [e1 r] eqn:Hit.
+  destruct r as [s'| |].
+  - pose proof Hit as Hit'. apply iter_next in Hit' as (I1 & _); [|exact Hinv]. specialize (IH s' I1).
+    destruct (serve_loop F cfg E f s') as [e2 r2]. cbn in *. rewrite <- app_assoc.
+    eapply iter_pred; [exact Hinv | exact Hit | intros; discriminate | exact IH].
+  - cbn. eapply iter_pred; [exact Hinv | exact Hit | reflexivity | apply P_nil_like; reflexivity].
+  - cbn. eapply iter_pred; [exact Hinv | exact Hit | intros; discriminate |].
+    apply P_nil_like. destruct (keep_hijacked cfg); reflexivity.
+Qed.
+
+Lemma serve_conn_pred en ad rd :
+  (forall st x, P (St st :: x) = P x) -> P (serve_conn F cfg E en ad rd) = true.
+Proof.
+  intros Hst. destruct ad.
+  - rewrite serve_conn_admit, Hst. apply loop_pred. apply lst_init_inv.
+  - cbn. apply P_err; try reflexivity. apply P_nil_like; reflexivity.
+  - destruct en; cbn; rewrite ?Hst; (apply P_err; [reflexivity|reflexivity|]); rewrite ?Hst; apply P_nil_like; reflexivity.
+Qed.
+End TracePred.
+
+(* ---------- C10 at the level of serve_conn ---------- *)
+Lemma prelude_nofinal a :
+  forallb (fun e => match e with Dispatch _ _ => false | Resp r => is_interim r | _ => true end) a = true ->
+  nofinal a = true /\ nodisp a = true.
+Proof.
+  induction a as [|e a IH]; [cbn; auto|]. intros H. cbn in H. apply andb_true_iff in H as [H1 H2].
+  destruct (IH H2) as [I1 I2]. unfold nofinal, nodisp in *. cbn [forallb]. rewrite I1, I2.
+  destruct e; try discriminate; cbn; auto. rewrite H1. auto.
+Qed.
+
+Lemma nilike_conn_ok l :
+  forallb (fun e => match e with Dispatch _ _ | Resp _ => false | _ => true end) l = true -> conn_ok l = true.
+Proof.
+  induction l as [|e l IH]; cbn; [reflexivity|]. intros H. apply andb_true_iff in H as [H1 H2].
+  destruct e; try discriminate; auto.
+Qed.
+Lemma nilike_reasons_ok l :
+  forallb (fun e => match e with Dispatch _ _ | Resp _ => false | _ => true end) l = true -> reasons_ok cfg E l = true.
+Proof.
+  induction l as [|e l IH]; cbn; [reflexivity|]. intros H. apply andb_true_iff in H as [H1 H2].
+  destruct e; try discriminate; auto.
+Qed.
+Lemma nilike_http10_ok l :
+  forallb (fun e => match e with Dispatch _ _ | Resp _ => false | _ => true end) l = true -> http10_ok l = true.
+Proof.
+  induction l as [|e l IH]; cbn; [reflexivity|]. intros H. apply andb_true_iff in H as [H1 H2].
+  destruct e; try discriminate; auto.
+Qed.
+
+Theorem conn_ok_run en ad rd : handler_guard -> conn_ok (serve_conn F cfg E en ad rd) = true.
+Proof.
+  intros Hg. apply serve_conn_pred.
+  - intros a x H. apply conn_ok_skip. apply prelude_nofinal. exact H.
+  - intros r post Hr Hp Hc. cbn [conn_ok]. rewrite Hr, has_close_strClose. cbn [forallb closing_ev andb].
+    rewrite Hp, Hc, orb_true_r. reflexivity.
+  - intros. apply fr_conn_ok; auto.
+  - apply nilike_conn_ok.
+  - reflexivity.
+Qed.
+
+Theorem reasons_ok_run en ad rd : reasons_ok cfg E (serve_conn F cfg E en ad rd) = true.
+Proof.
+  apply serve_conn_pred.
+  - intros a x H. apply reasons_ok_skip. apply prelude_nofinal. exact H.
+  - intros r post Hr Hp Hc. exact Hc.
+  - intros. apply fr_reasons_ok; auto.
+  - apply nilike_reasons_ok.
+  - reflexivity.
+Qed.
+
+Theorem http10_ok_run en ad rd : http10_ok (serve_conn F cfg E en ad rd) = true.
+Proof.
+  apply serve_conn_pred.
+  - intros a x H. apply http10_ok_skip. apply prelude_nofinal. exact H.
+  - intros r post Hr Hp Hc. exact Hc.
+  - intros. apply fr_http10_ok; auto.
+  - apply nilike_http10_ok.
+  - reflexivity.
 Qed.
 
 (* ---------- C17 at the level of serve_conn ---------- *)
@@ -813,14 +1031,14 @@ Proof.
     + cbn in Hin. intuition discriminate.
 Qed.
 
-(* reads after the handler returned (KeepHijackedConns): intact unless the reader goes through ctx.fbr *)
+(* reads after the handler returned (KeepHijackedConns) continue the stream where the handler stopped *)
 Theorem late_reads_intact en ad rd src hb hcs :
   In (HijackEv src hb hcs) (serve_conn F cfg E en ad rd) ->
-  reduce_mem cfg = false -> keep_hijacked cfg = true ->
-  forall k, hijack_late (keep_hijacked cfg) src hb hcs k = LateAll (skipn k (hb ++ concat hcs)).
+  keep_hijacked cfg = true ->
+  forall k, hijack_late (reduce_mem cfg) (keep_hijacked cfg) src hb hcs k = LateAll (skipn k (hb ++ concat hcs)).
 Proof.
-  intros H Hrm Hk k. apply hijack_shape in H as (pre & _ & _ & Hs).
-  unfold hijack_late. rewrite Hk. cbn. destruct src; auto. specialize (Hs eq_refl). congruence.
+  intros H Hk k. apply hijack_shape in H as (pre & _ & _ & Hs).
+  unfold hijack_late, ctx_released. rewrite Hk. cbn. destruct src; auto. rewrite (Hs eq_refl). reflexivity.
 Qed.
 
 End Loop.
@@ -883,18 +1101,14 @@ Definition toy_env (ops : list hop) : env :=
   {| handler := fun _ _ => ops; expect_status := fun _ _ => 100%Z; continue_ok := fun _ _ => true;
      stop_at_close := fun _ => false; stop_at_idle := fun _ => false |}.
 
-(* KeepHijackedConns + ReduceMemoryUsage + bytes buffered behind the hijacking request: the connection that
-   escaped the hijack handler reads through the released ctx.fbr *)
-Theorem late_reads_refuted :
-  exists F cfg E en ad rd src hb hcs k,
-    framer_ok F /\ In (HijackEv src hb hcs) (serve_conn F cfg E en ad rd) /\ keep_hijacked cfg = true /\
-    hijack_late (keep_hijacked cfg) src hb hcs k = LatePanic (skipn k hb) /\
-    hijack_late (keep_hijacked cfg) src hb hcs k <> LateAll (skipn k (hb ++ concat hcs)).
-Proof.
-  exists toy_framer,
-         {| reduce_mem := true; stream_body := false; disable_keepalive := false; close_on_shutdown := false;
-            keep_hijacked := true; max_reqs := 0%N; xmode := XNone |},
-         (toy_env [HijackOp]), ViaServe, Admit, {| buf := []; chunks := [[82; 1; 2; 3]%N]; tl := Eof |},
-         HjBrFbr, [1; 2; 3]%N, [], 1.
-  split; [exact toy_framer_ok|]. split; [vm_compute; tauto|]. split; [reflexivity|]. split; [reflexivity|discriminate].
-Qed.
+(* regression witness: KeepHijackedConns + ReduceMemoryUsage + bytes buffered behind the hijacking request.
+   The reader handed over goes through ctx.fbr; if hijackConnHandler reset the ctx (as it did before the
+   repair), reads after the handler would panic; ctx_released is false, so they continue the stream. *)
+Example late_reads_witness :
+  let cfg := {| reduce_mem := true; stream_body := false; disable_keepalive := false; close_on_shutdown := false;
+                keep_hijacked := true; max_reqs := 0%N; xmode := XNone |} in
+  In (HijackEv HjBrFbr [1; 2; 3]%N []) (serve_conn toy_framer cfg (toy_env [HijackOp]) ViaServe Admit
+                                                   {| buf := []; chunks := [[82; 1; 2; 3]%N]; tl := Eof |})
+  /\ ctx_released true true HjBrFbr = false
+  /\ hijack_late true true HjBrFbr [1; 2; 3]%N [] 1 = LateAll [2; 3]%N.
+Proof. vm_compute. tauto. Qed.
